@@ -140,7 +140,7 @@ struct Families {
 		for (int bytes = 4030; bytes <= 4104; bytes += 2) branchProgs.push_back({ 1, 70, (bytes - 3920) / 8, ((bytes - 3920) % 8) / 2 });                 // around the beq limit (-4096)
 		rcpCounts = { 0, 1, 3, 4, 5, 9, 10, 11, 12, 100, 237, 238, 239, 240, 255, 256, 300, 383, 384 };
 		uint64_t A = t.alpha.size();
-		auto sc = [&](uint64_t n) { return (n + t.scale - 1) / t.scale; };
+		auto sc = [&](uint64_t n) { return t.scale <= 1 ? n : std::max<uint64_t>(1, n / t.scale); };
 		for (size_t s = 0; s < spaces.size(); ++s) {
 			uint64_t n = spaces[s].count();
 			uint64_t progs = (n + 255) / 256 + (n + 383) / 384;   // v1 + v2
@@ -155,6 +155,8 @@ struct Families {
 	}
 	uint64_t total() const { uint64_t n = 0; for (auto& f : fams) n += f.count; return n; }
 
+	// scale > 1 (2048-iteration profile): take one case out of every `scale`, at a position that varies so that all digits of the index vary
+	uint64_t spread(uint64_t i) const { return t.scale <= 1 ? i : i * t.scale + ((i * 2654435761ull) >> 7) % t.scale; }
 	static void ctx16(Case& c, unsigned ctx, uint64_t e[16]) { makeEntropy(ctx & 1, e); c.spad = (ctx >> 1) & 1; c.rmode = (ctx >> 2) & 3; }
 	static void fill(Case& c, const uint64_t e[16]) { memcpy(c.prog, e, 128); for (unsigned s = 0; s < RANDOMX_PROGRAM_MAX_SIZE; ++s) c.setWord(s, NoOp()); }
 
@@ -165,7 +167,7 @@ struct Families {
 		const std::string& fn = fams[f].name;
 		Case& c = cs.c; uint64_t e[16];
 		if (fn[0] == 'a') {
-			i *= t.scale;
+			i = spread(i);
 			const WordSpace& ws = spaces[(size_t)(fn[1] - '0')];
 			uint64_t n = ws.count(), p1 = (n + 255) / 256, p2 = (n + 383) / 384, per = p1 + p2;
 			unsigned combo = (unsigned)(i / per); uint64_t p = i % per;   // combo: bit0 packing, bit1 mode
@@ -182,7 +184,7 @@ struct Families {
 			}
 		}
 		else if (fn == "b2" || fn == "b3") {
-			i *= t.scale;
+			i = spread(i);
 			uint64_t A = t.alpha.size(); int L = fn == "b2" ? 2 : 3;
 			unsigned vm = (unsigned)(i % 4); i /= 4; c.v2 = vm & 1; c.light = vm >> 1;
 			unsigned ctx, pos;
@@ -222,7 +224,7 @@ struct Families {
 			for (unsigned s = (unsigned)std::min<int>(k, (int)S); s < S; s += 16) c.setWord(s, W(T_IXOR_R, s / 16 & 7, (s / 16 + 1) & 7, 0, 0));
 		}
 		else {   // d-random: AES-generated program buffers, as VmBase::generateProgram does (sampling, a sanity floor only)
-			i *= t.scale;
+			i = spread(i);
 			cs.sampling = true;
 			unsigned vm = (unsigned)(i % 4); i /= 4; c.v2 = vm & 1; c.light = vm >> 1;
 			alignas(16) uint8_t seed[64]; uint64_t s = 0xABCDEF ^ (i * 0x100000001B3ull) ^ t.seed;
@@ -266,6 +268,7 @@ struct Analyzer {
 		// bytes the JIT emitted for instruction `slot` of the program generated last
 		auto* j = E.lastJit; int32_t a = j->state.instructionOffsets[slot];
 		int32_t b = slot + 1 < c.size() ? j->state.instructionOffsets[slot + 1] : a + 64;
+		if (slot + 1 >= c.size()) b = a + 24;   // last slot: the end of its code is not recorded; show the first bytes
 		if (b < a || b - a > 64) b = a + 64;
 		return "code+" + std::to_string(a) + ": " + vf::hex(j->state.code + a, (size_t)(b - a));
 	}
